@@ -125,7 +125,7 @@ def _run_driver_shard(cases, workdir, shard):
         return results
     inp = ("\n".join(lines) + "\n").encode("utf-8")
     proc = subprocess.run([DRIVER], input=inp, stdout=subprocess.PIPE, stderr=subprocess.PIPE,
-                          timeout=600, preexec_fn=_big_stack)
+                          timeout=3000, preexec_fn=_big_stack, env=dict(os.environ, OCAMLRUNPARAM="s=16M"))
     if proc.returncode != 0:
         raise RuntimeError("model driver failed: %s" % proc.stderr.decode()[-2000:])
     for line in proc.stdout.decode("utf-8", "replace").split("\n"):
@@ -162,8 +162,8 @@ def run_cli_model(cli_cases):
     if not lines:
         return {}
     proc = subprocess.run([DRIVER], input=("\n".join(lines) + "\n").encode("utf-8"),
-                          stdout=subprocess.PIPE, stderr=subprocess.PIPE, timeout=600,
-                          preexec_fn=_big_stack)
+                          stdout=subprocess.PIPE, stderr=subprocess.PIPE, timeout=3000,
+                          preexec_fn=_big_stack, env=dict(os.environ, OCAMLRUNPARAM="s=16M"))
     if proc.returncode != 0:
         raise RuntimeError("model driver failed: %s" % proc.stderr.decode()[-2000:])
     res = {}
